@@ -3,7 +3,21 @@
    (VerifGen.GenPolygonCode, translator/cmd/polygoncode with tr/loops.go), equal the hand
    models of C18/Model.v and C18/Tags.v, for all inputs.  The rule table is a parameter: a list
    of (key, condition string, values) as the Go code holds it; the model's table is its image
-   under [decode_rule].  Results of functions that may panic are options ([res_opt]). *)
+   under [decode_rule].  Results of functions that may panic are options ([res_opt]).
+
+   The proof of Way.Polygon is SEMANTIC: it does not follow the shape of the generated term.
+   Helpers of the Go package are inlined by the translator, index loops over a slice are
+   normalised to element loops (cmd/polygoncode/normalise.go), and the script
+     - decides the ring part by cases on the length and the two end nodes,
+     - captures whatever loop body the source has and proves, by induction on the table and for
+       every loop state, that the loop computes the model's [rule_loop]; one step is a case
+       analysis on the atoms the MODEL tests (value empty / "no", the three condition names, the
+       search result — shown total, so it may be computed before or inside the condition tests —,
+       index = length, the element at the index), each leaf closed by computation,
+     - decides the area part by cases.
+   So extracted helpers, switch vs if-chain, inverted guards, index vs range loops, a shared
+   [listed] for both list tests, reordered tests all leave the script valid; a change of meaning
+   leaves some leaf unprovable. *)
 From Coq Require Import ZArith String List Bool Arith Lia.
 From Verif Require Import Base.GenLoop C18.Model C18.Tags C18.GenSupport.
 From VerifGen Require Import GenPolygon GenPolygonCode.
@@ -41,7 +55,10 @@ Qed.
 
 (* ---- polygon.go ---- *)
 Lemma gen_relation_polygon_ok ts : gen_relation_polygon ts = relation_polygon ts.
-Proof. unfold gen_relation_polygon, relation_polygon. cbv zeta. rewrite gen_tags_find_ok. reflexivity. Qed.
+Proof.
+  unfold gen_relation_polygon, relation_polygon, gr_tags. cbv beta zeta.
+  rewrite ?gen_tags_find_ok. reflexivity.
+Qed.
 
 Lemma Z_of_nat_eqb (a b : nat) : (Z.of_nat a =? Z.of_nat b)%Z = (a =? b)%nat.
 Proof.
@@ -57,6 +74,13 @@ Proof.
   - apply Nat.leb_gt in E. apply Z.leb_gt. lia.
 Qed.
 
+Lemma Z_3_ltb_of_nat (n : nat) : (3 <? Z.of_nat n)%Z = negb (n <=? 3)%nat.
+Proof.
+  destruct (n <=? 3)%nat eqn:E; cbn [negb].
+  - apply Nat.leb_le in E. apply Z.ltb_ge. lia.
+  - apply Nat.leb_gt in E. apply Z.ltb_lt. lia.
+Qed.
+
 Lemma Z_of_nat_ltb (a b : nat) : (Z.of_nat a <? Z.of_nat b)%Z = (a <? b)%nat.
 Proof.
   destruct (a <? b)%nat eqn:E.
@@ -64,69 +88,106 @@ Proof.
   - apply Nat.ltb_ge in E. apply Z.ltb_ge. lia.
 Qed.
 
-(* the search returns an index inside [0, len] whatever the list (sorted or not) *)
-Lemma search_loop_range : forall fuel a x i j k,
-  (i <= j)%nat -> search_loop fuel a x i j = Val k -> (i <= k <= j)%nat.
+(* the search is total on EVERY list (sorted or not): it returns an index in [0, len] *)
+Lemma search_loop_total : forall fuel a x i j,
+  (i <= j)%nat -> (j <= List.length a)%nat -> (j - i <= fuel)%nat ->
+  exists k, search_loop fuel a x i j = Val k /\ (i <= k <= j)%nat.
 Proof.
-  induction fuel as [|f IH]; intros a x i j k Hij H; cbn [search_loop] in H.
-  - destruct (i <? j)%nat eqn:E; [discriminate|]. inversion H; subst. apply Nat.ltb_ge in E. lia.
+  induction fuel as [|f IH]; intros a x i j Hij Hj Hf; cbn [search_loop].
+  - assert (i = j) by lia. subst. rewrite Nat.ltb_irrefl. exists j. split; [reflexivity|lia].
   - destruct (i <? j)%nat eqn:E.
     + apply Nat.ltb_lt in E.
       assert (Hh : (i <= (i + j) / 2 < j)%nat).
       { split; [apply Nat.div_le_lower_bound; lia|apply Nat.div_lt_upper_bound; lia]. }
-      destruct (nth_error a ((i + j) / 2)) as [u|]; [|discriminate].
+      destruct (nth_error a ((i + j) / 2)) as [u|] eqn:Eu.
+      2:{ apply nth_error_None in Eu. lia. }
       destruct (String.ltb u x).
-      * apply IH in H; lia.
-      * apply IH in H; lia.
-    + inversion H; subst. lia.
+      * destruct (IH a x ((i + j) / 2 + 1)%nat j) as [k [Hk Hr]]; try lia. exists k. split; [exact Hk|lia].
+      * destruct (IH a x i ((i + j) / 2)%nat) as [k [Hk Hr]]; try lia. exists k. split; [exact Hk|lia].
+    + exists i. split; [reflexivity|]. apply Nat.ltb_ge in E. lia.
 Qed.
 
-Lemma search_strings_le a x k : search_strings a x = Val k -> (k <= List.length a)%nat.
-Proof. intro H. apply search_loop_range in H; lia. Qed.
+Lemma search_strings_total a x :
+  exists k, search_strings a x = Val k /\ (k <= List.length a)%nat.
+Proof.
+  unfold search_strings.
+  destruct (search_loop_total (List.length a) a x 0 (List.length a)) as [k [Hk Hr]]; try lia.
+  exists k. split; [exact Hk|lia].
+Qed.
+
+Lemma ltb_as_eqb (i n : nat) : (i <= n)%nat -> (i <? n)%nat = negb (i =? n)%nat.
+Proof.
+  intros H. destruct (i =? n)%nat eqn:E.
+  - apply Nat.eqb_eq in E. subst. apply Nat.ltb_irrefl.
+  - apply Nat.eqb_neq in E. apply Nat.ltb_lt. lia.
+Qed.
+
+Local Ltac simp := cbn [oand oor olift2 option_map negb andb orb res_opt fst snd].
+
+(* one rule of the table: every atom the model tests, then computation *)
+Local Ltac rule_step IH c ts :=
+  cbv beta zeta; rewrite ?gen_tags_find_ok;
+  change (rkey (decode_rule c)) with (rr_key c);
+  set (v := find (rr_key c) ts);
+  unfold rule_fires;
+  change (rcond (decode_rule c)) with (decode_cond (rr_cond c));
+  change (rvalues (decode_rule c)) with (rr_values c);
+  unfold decode_cond, search_strings_z;
+  let i := fresh "i" in let Es := fresh "Es" in let Hle := fresh "Hle" in
+  destruct (search_strings_total (rr_values c) v) as [i [Es Hle]];
+  rewrite ?Es; rewrite ?Z_of_nat_eqb, ?Z_of_nat_ltb, ?get_at_nat, ?(ltb_as_eqb _ _ Hle);
+  let Ea := fresh "Ea" in let Ew := fresh "Ew" in let Eb := fresh "Eb" in
+  let Ei := fresh "Ei" in let En := fresh "En" in
+  destruct (String.eqb v ""); destruct (String.eqb v "no");
+  destruct (String.eqb (rr_cond c) cond_all) eqn:Ea;
+  destruct (String.eqb (rr_cond c) cond_whitelist) eqn:Ew;
+  destruct (String.eqb (rr_cond c) cond_blacklist) eqn:Eb;
+  destruct (i =? List.length (rr_values c))%nat eqn:Ei;
+  destruct (nth_error (rr_values c) i) as [?u|] eqn:En;
+  simp;
+  try match goal with |- context [String.eqb ?u v] => destruct (String.eqb u v) end;
+  simp;
+  first [ reflexivity
+        | apply IH
+        | (* two different condition names cannot both match *)
+          exfalso; apply String.eqb_eq in Ew; apply String.eqb_eq in Eb; rewrite Ew in Eb;
+          unfold cond_whitelist, cond_blacklist in Eb; discriminate Eb
+        | exfalso; apply String.eqb_eq in Ea; apply String.eqb_eq in Ew; rewrite Ea in Ew;
+          unfold cond_all, cond_whitelist in Ew; discriminate Ew
+        | exfalso; apply String.eqb_eq in Ea; apply String.eqb_eq in Eb; rewrite Ea in Eb;
+          unfold cond_all, cond_blacklist in Eb; discriminate Eb
+        | (* the search result is a valid index unless it is the length *)
+          exfalso; apply nth_error_None in En; apply Nat.eqb_neq in Ei; lia ].
 
 Theorem gen_way_polygon_ok (T : list raw_rule) (nodes : list waynode) (ts : tags) :
-  gen_way_polygon T nodes ts = res_opt (way_polygon_wn (map decode_rule T) nodes ts).
+  gen_way_polygon T (nodes, ts) = res_opt (way_polygon_wn (map decode_rule T) nodes ts).
 Proof.
-  unfold gen_way_polygon, way_polygon_wn. cbv zeta. rewrite Z_of_nat_leb3.
-  destruct (List.length nodes <=? 3)%nat eqn:Elen; [reflexivity|].
+  unfold gen_way_polygon, way_polygon_wn, gw_nodes, gw_tags. cbn [fst snd]. cbv beta zeta.
+  rewrite ?gen_tags_find_ok.
+  (* the rule loop, whatever its body and its state *)
+  match goal with
+  | |- context [loop_fold ?F T ?s0] =>
+      assert (HL : forall st,
+                 match loop_fold F T st with LRet r => r | LNext _ => Some false end
+                 = res_opt (rule_loop (map decode_rule T) ts))
+  end.
+  { induction T as [|c T IH]; intros st; [reflexivity|].
+    rewrite loop_fold_cons. cbn [map rule_loop]. rule_step IH c ts. }
+  (* the ring *)
+  rewrite ?Z_of_nat_leb3, ?Z_3_ltb_of_nat.
+  destruct (List.length nodes <=? 3)%nat eqn:Elen; simp; [reflexivity|].
   apply Nat.leb_gt in Elen.
-  change 0%Z with (Z.of_nat 0). rewrite get_at_nat.
+  change 0%Z with (Z.of_nat 0). rewrite ?get_at_nat.
   replace (Z.of_nat (List.length nodes) - 1)%Z with (Z.of_nat (List.length nodes - 1)) by lia.
-  rewrite get_at_nat.
-  destruct (nth_error nodes 0) as [a|]; [|reflexivity].
-  destruct (nth_error nodes (List.length nodes - 1)) as [b|]; [|reflexivity].
-  cbn [option_map olift2]. destruct (wid a =? wid b)%Z; cbn [negb]; [|reflexivity].
-  rewrite !gen_tags_find_ok.
-  destruct (String.eqb (find "area" ts) "no"); [reflexivity|].
-  destruct (String.eqb (find "area" ts) ""); cbn [negb]; [|reflexivity].
-  (* the rule loop: the script only uses the tests the model makes, not how the source spells
-     or nests them (inline chain, switch, or the helpers matches / sortedContains) *)
-  induction T as [|c T IH]; [reflexivity|].
-  rewrite loop_fold_cons. cbn [map rule_loop]. cbv zeta. rewrite ?gen_tags_find_ok.
-  change (rkey (decode_rule c)) with (rr_key c).
-  set (v := find (rr_key c) ts).
-  unfold rule_fires.
-  change (rcond (decode_rule c)) with (decode_cond (rr_cond c)).
-  change (rvalues (decode_rule c)) with (rr_values c). unfold decode_cond, search_strings_z.
-  Local Ltac fin IH := cbn [oand oor olift2 option_map negb andb orb]; first [reflexivity | exact IH].
-  Local Ltac searched IH c v :=
-    let i := fresh "i" in let Es := fresh "Es" in let Hle := fresh "Hle" in let Hlt := fresh "Hlt" in
-    destruct (search_strings (rr_values c) v) as [i| |] eqn:Es; [|fin IH|fin IH];
-    pose proof (search_strings_le _ _ _ Es) as Hle;
-    assert (Hlt : (i <? List.length (rr_values c))%nat = negb (i =? List.length (rr_values c))%nat)
-      by (destruct (i =? List.length (rr_values c))%nat eqn:E;
-          [apply Nat.eqb_eq in E; rewrite E; apply Nat.ltb_irrefl
-          |apply Nat.eqb_neq in E; apply Nat.ltb_lt; lia]);
-    rewrite ?Z_of_nat_eqb, ?Z_of_nat_ltb, ?get_at_nat, ?Hlt;
-    destruct (i =? List.length (rr_values c))%nat; [fin IH|];
-    destruct (nth_error (rr_values c) i); [|fin IH];
-    cbn [oand oor olift2 option_map negb andb orb];
-    match goal with |- context [String.eqb ?u v] => destruct (String.eqb u v) end; fin IH.
-  destruct (String.eqb v "" || String.eqb v "no"); [fin IH|].
-  destruct (String.eqb (rr_cond c) cond_all); [fin IH|].
-  destruct (String.eqb (rr_cond c) cond_whitelist); [searched IH c v|].
-  destruct (String.eqb (rr_cond c) cond_blacklist); [searched IH c v|].
-  fin IH.
+  rewrite ?get_at_nat.
+  destruct (nth_error nodes 0) as [a|]; simp; [|reflexivity].
+  destruct (nth_error nodes (List.length nodes - 1)) as [b|]; simp; [|reflexivity].
+  destruct (wid a =? wid b)%Z; simp; [|reflexivity].
+  (* the area tag and the loop *)
+  cbv beta. rewrite ?HL.
+  destruct (String.eqb (find "area" ts) "no"); simp; [reflexivity|].
+  destruct (String.eqb (find "area" ts) ""); simp; [|reflexivity].
+  destruct (rule_loop (map decode_rule T) ts) as [[]| |]; reflexivity.
 Qed.
 
 (* with the table of the code as it is now: the raw table is the source table with each value
@@ -141,5 +202,5 @@ Proof.
 Qed.
 
 Corollary gen_way_polygon_now nodes ts :
-  gen_way_polygon raw_table_now nodes ts = res_opt (way_polygon_wn RT nodes ts).
+  gen_way_polygon raw_table_now (nodes, ts) = res_opt (way_polygon_wn RT nodes ts).
 Proof. rewrite gen_way_polygon_ok, raw_table_now_is_RT. reflexivity. Qed.
